@@ -491,7 +491,7 @@ void ezc3d::c3d::updateHeader()
     } else {
         // Should always be greater than 0, but we have to take in account Optotrak lazyness
         if (parameters().group("ANALOG").nbParameters()){
-            if (static_cast<size_t>(pointRate) == 0){
+            if (static_cast<double>(pointRate) == 0.0){ // a rate below 1 Hz is still a rate
                 if (static_cast<size_t>(header().nbAnalogByFrame()) != 1)
                     _header->nbAnalogByFrame(1);
             } else {
